@@ -1,5 +1,5 @@
 (** * C05 — all features agree on which definition a name denotes.  Statements only. *)
-From PLS Require Import Check.C05 Proofs.Basics Proofs.Available Proofs.Cascade.
+From PLS Require Import Check.C05 Proofs.Basics Proofs.Available Proofs.Cascade Proofs.Agree.
 
 (** the per-file view used by completion and inlay hints has exactly one entry per
     name — every state, every file *)
@@ -12,6 +12,19 @@ Theorem C05_available_entries_are_known_definitions :
   forall dk roots s F d, In d (available_cold dk roots s F) -> In d (defs s).
 Proof. exact available_entries_known. Qed.
 Print Assumptions C05_available_entries_are_known_definitions.
+
+(** the per-file view denotes, for EVERY name, exactly the definition go-to-definition
+    navigates to from that file — same-file last binding, then each conftest.py outward
+    (own last binding, then names it imports), then plugin, then third-party definitions —
+    in every state in which the conftest.py files that exist on disk along the path are
+    known to the index (what a workspace scan establishes; its complement is the listed
+    finding of C07, a conftest read from disk by one path and ignored by the other) *)
+Theorem C05_view_agrees_with_goto_definition :
+  forall dk roots s f dir n,
+    conftests_known dk s (f :: dir) ->
+    lookup_av n (available_cold dk roots s (f :: dir)) = closest dk roots s (f :: dir) n.
+Proof. exact available_agrees_with_goto. Qed.
+Print Assumptions C05_view_agrees_with_goto_definition.
 
 (** Full-strength statement (agreement of the per-file view, the by-name resolver and
     go-to-definition for every name):
@@ -30,3 +43,16 @@ Lemma C05_refuted_rff_fallback :
                 K_rff_fallback [] [] s F n = true.
 Proof. exists rff_state, parent_c, "client". repeat split; vm_compute; congruence. Qed.
 Print Assumptions C05_refuted_rff_fallback.
+
+(** the hypothesis of the agreement theorem is met by a state with definitions, and both
+    sides are a definition there (not None = None) *)
+Example C05_agreement_nonvacuous :
+  conftests_known [] rff_state child /\
+  lookup_av "client" (available_cold [] [] rff_state child) = closest [] [] rff_state child "client" /\
+  closest [] [] rff_state child "client" <> None.
+Proof. split; [intros d _ H; discriminate|]. split; [vm_compute; reflexivity|vm_compute; discriminate]. Qed.
+
+Check C05_view_agrees_with_goto_definition :
+  forall dk roots s f dir n,
+    conftests_known dk s (f :: dir) ->
+    lookup_av n (available_cold dk roots s (f :: dir)) = closest dk roots s (f :: dir) n.
